@@ -13,4 +13,4 @@ globals().update(P.make("C15",
     "string up to the tier's length over {CR, LF, NUL, SP, '<', '>', 'a'} in each string-typed argument (Hello, Verify, Mail from, ENVID/AUTH, "
     "Rcpt to, ORCPT, NOTIFY, RET) x 4 extension sets; a refused Hello followed by another method.  non-trivial = more than one call; distinct = distinct case line",
     ["C15_mail_one_line", "C15_rcpt_one_line", "C15_hostile_address_refused", "C15_no_ext_no_params", "C15_unoffered_is_error", "C15_mail_params_gated", "C15_mail_default_gated",
-     "C15_rcpt_params_gated", "C15_call_whole_lines", "C15_one_line_per_call", "C15_history_keeps_premises"], _groups))
+     "C15_rcpt_params_gated", "C15_call_whole_lines", "C15_one_line_per_call", "C15_history_keeps_premises", "C15_auth_whole_lines"], _groups))
